@@ -123,6 +123,8 @@ def random_history(rng, kind, nvals, nops, zero_tok=0, two=True, maxlen=40, bad=
                 continue
             if w == "refuse_set" and n == 0:
                 continue
+            if w in ("stack_pop", "stack_popat", "stack_popatn", "stack_rem", "stack_resize", "stack_pushat") and n == 0:
+                continue
             L.append("bad %d %s" % (o, w))
             continue
         if r < 0.25 and n < maxlen:
